@@ -113,6 +113,10 @@ FAMILIES = {
               ("Gen_Discard", "Gen_Discard.cfg", "sim", {"quick": dict(num=100, depth=8, consts={}, seeds=1),
                                                       "thorough": dict(num=1500, depth=12, consts={}, seeds=2)})],
         replays=[dict(mode="app", controls="", swap=False)]),
+    "RPCS": dict(      # every Msg RPC registered by the module (from the service descriptors) x every signer class
+        mc=("MC_Pause", "MC_Pause.cfg", {"quick": {"PauseSet": '"small"'}, "thorough": {"PauseSet": '"small"'}}),
+        gens=[("rpcs", None, "harness", {"quick": {}, "thorough": {}})],
+        replays=[dict(mode="app", controls="", swap=False), dict(mode="instrauth", controls="", swap=False)]),
     "BIGSEQ": dict(
         mc=("MC_FeesBig", "MC_FeesBig.cfg", {"quick": {"Ks": "{64}"}, "thorough": {"Ks": "{64, 255}"}}),
         gens=[("Gen_BigSeq", "Gen_BigSeq.cfg", "bfs", {"quick": dict(depth=1, consts={}), "thorough": dict(depth=1, consts={})})],
@@ -168,7 +172,7 @@ PROPS = {
                 rule="non-trivial = a transfer with a parseable payload received while some protocol/destination is paused, or a pause/unpause message; distinct = distinct (pre-state, input)"),
     "C09": dict(families=["PAUSE", "DISCARD"], groups=["ack", "pause"], level="model_checking",
                 rule="non-trivial = a transfer with a parseable payload received while some action is paused, or a pause/unpause-action message; distinct = distinct (pre-state, input)"),
-    "C10": dict(families=["PAUSE", "AUTHMOD"], groups=["ack", "pause", "params", "stats", "bal"], level="model_checking",
+    "C10": dict(families=["PAUSE", "AUTHMOD", "RPCS"], groups=["ack", "pause", "params", "stats", "bal"], level="model_checking",
                 rule="non-trivial = any authority message (every RPC x signer class x body class); distinct = distinct (pre-state, input)"),
     "C18": dict(families=["PAUSE", "DUST", "DISCARD"], groups=["ack", "params"], level="model_checking",
                 rule="non-trivial = a transfer with a non-empty passthrough payload, or an UpdateParams message; distinct = distinct (pre-state, input)"),
@@ -210,7 +214,16 @@ def run_family(fam, tier, seed, wd, specdir, report):
     behs = []
     for gi, (gmod, gcfg, gmode, tiers) in enumerate(F["gens"]):
         t = tiers[tier]
-        if gmode == "bfs":
+        if gmode == "harness":
+            # inputs enumerated from the CODE (service descriptors), not from the specification's alphabet
+            outp = os.path.join(wd, "%s-%s.behaviours.ndjson" % (fam, gmod))
+            rc, out, dt = run([BIN, gmod, "-out", outp], 600, what="orbsim " + gmod)
+            if rc != 0:
+                raise Machinery("orbsim %s failed (rc=%d): %s" % (gmod, rc, out[-2000:]))
+            hs = [json.loads(l) for l in open(outp) if l.strip()]
+            behs += hs
+            log("enumerated %d single-RPC histories from the module's service descriptors (%s)" % (len(hs), (out.strip().splitlines() or [""])[0]))
+        elif gmode == "bfs":
             def gen_one(sh):
                 return generate(specdir, gmod, gcfg, dict(t["consts"], **sh), "bfs", 0, t["depth"], 0, timeout=3600, workers=nw, tag=stable_hash(sh)[:6])
             with ThreadPoolExecutor(max_workers=min(len(shards), 8)) as ex:
